@@ -210,9 +210,9 @@ def check_c15(ctx, job, top):
                     ctx.fail("C15", "distinct", f"residues with atom names {list(nk)} and {list(other_names)} "
                                                 f"share one template")
             names_to_keys.setdefault(nk, key)
-            if key in seen_keys:
+            if (key, canon) in seen_keys:
                 continue
-            seen_keys.add(key)
+            seen_keys.add((key, canon))
             tmpl = templates[key]
             if sorted(tmpl.keys()) != names:
                 ctx.fail("C15", "keys", f"template of {nd['resname']} has positions for {sorted(tmpl.keys())}, "
@@ -228,7 +228,8 @@ def check_c15(ctx, job, top):
             if key not in volumes or not (float(volumes[key]) > 0):
                 ctx.fail("C15", "positive", f"size of {nd['resname']} is {volumes.get(key)}")
             mtype = next((m for m in spec["moltypes"] if m["name"] == mol.mol_name), {})
-            rt = mtype.get("restype_override", {}).get(nd["resname"]) or spec["restypes"].get(nd["resname"])
+            rt = mtype.get("residue_override", {}).get(str(nd["resid"] - 1)) or \
+                mtype.get("restype_override", {}).get(nd["resname"]) or spec["restypes"].get(nd["resname"])
             is_user = nd["resname"] in user_templates
             if is_user:
                 ut = user_templates[nd["resname"]]
@@ -276,7 +277,7 @@ def check_c15(ctx, job, top):
                     if abs(ang - th) > 5 + 1e-6:
                         ctx.fail("C15", "tolerance", f"{nd['resname']} reported optimised but angle "
                                                      f"{anames[a]}-{anames[b]}-{anames[c]} is {ang:.3f} (target {th})")
-    if len(seen_keys) >= 2:
+    if len({k for k, _ in seen_keys}) >= 2:
         ctx.probe("two_or_more_templates")
 
 
